@@ -27,6 +27,10 @@ Clauses ==
  \cup (IF C.hasimported /\ C.declared.built /\ ~C.imported.built THEN {"C19:declared-in-imported-file-does-not-build"} ELSE {})
  \cup (IF C.hasimported /\ C.imported.built /\ C.declared.built /\ C.imported.match # C.declared.match THEN {"C19:declared-in-imported-file-matches-differently"} ELSE {})
  \cup (IF C.hasimported /\ C.imported.built /\ C.declared.built /\ C.imported.sentence # C.declared.sentence THEN {"C19:declared-in-imported-file-sentence-differs"} ELSE {})
+ \* the same text in a grammar that ALSO uses the text differing from it in case only (case-sensitive grammars): still its own terminal
+ \cup (IF C.hastwin /\ C.inline.built /\ ~C.twin.built THEN {"C19:text-next-to-its-case-twin-does-not-build"} ELSE {})
+ \cup (IF C.hastwin /\ C.inline.built /\ C.twin.built /\ C.twin.match # C.inline.match THEN {"C19:text-next-to-its-case-twin-matches-differently"} ELSE {})
+ \cup (IF C.hastwin /\ C.inline.built /\ C.twin.built /\ C.twin.sentence # C.inline.sentence THEN {"C19:text-next-to-its-case-twin-sentence-differs"} ELSE {})
  \cup (IF C.inline.built /\ C.inline.iskw # C.iskw THEN {"C19:inline-keyword-classification"} ELSE {})
  \cup (IF C.declared.built /\ C.declared.iskw # C.iskw THEN {"C19:declared-keyword-classification"} ELSE {})
 Init == cid \in DOMAIN Cases /\ phase = 0
